@@ -272,10 +272,13 @@ func (r *rw) rewriteStmt(s ast.Stmt) []ast.Stmt {
 				switch sel.Sel.Name {
 				case "Wait":
 					return r.bracket(x, x.Pos())
-				case "Lock":
-					return r.stmts(fmt.Sprintf(`simrt.Lock(%s)`, r.node(sel.X)))
-				case "RLock":
-					return r.stmts(fmt.Sprintf(`simrt.RLock(%s)`, r.node(sel.X)))
+				case "Lock", "RLock":
+					// x may be a mutex value (addressable field) or a pointer to one: the
+					// generic helper takes &x and sorts that out at run time
+					if _, isCall := sel.X.(*ast.CallExpr); isCall {
+						return r.stmts(fmt.Sprintf(`simrt.%s(%s)`, sel.Sel.Name, r.node(sel.X)))
+					}
+					return r.stmts(fmt.Sprintf(`simrt.%sAddr(&%s)`, sel.Sel.Name, r.node(sel.X)))
 				}
 			}
 		}
